@@ -157,8 +157,8 @@ def tensor_cases(draw, tier):
     return {"d": spec, "var": draw(st.sampled_from(symbols + ["v"])),
             "env": {s: draw(st.sampled_from(POINTS))
                     for s in ["u", "v", "x", "y", "z"]},
-            "vars": draw(st.lists(st.sampled_from(["u", "v"]), unique=True,
-                                  max_size=2))}
+            "vars": draw(st.lists(st.sampled_from(["u", "v", "x", "y"]),
+                                  unique=True, max_size=4))}
 
 
 def lib_array(value, like):
@@ -179,14 +179,8 @@ def check_tensor(case):
             lambda: "{} reports {} but depends on {}".format(
                 d, d.free_symbols, symbols))
     has_bubble = any(b["k"] == "bubble" for b, _ in spec["layers"])
-    if var not in symbols:
-        require(len(g.terms) == 0, "C15:gradient-of-constant-not-empty",
-                lambda: "{}.grad({}) = {}".format(d, var, g))
-        return dict(nt=False, labels=["independent"])
-    ref = symbolic_derivative(value.array, var, env)
-    got = c14.to_complex(lib_array(g.eval(), value.array), env)
-    same(got, ref, "tensor-gradient", "{} d/d{}".format(common.show(d), var))
-    # jacobian: dom unchanged, cod = Dim(len(variables)) @ cod
+    # jacobian: dom unchanged, cod = Dim(len(variables)) @ cod; the rows
+    # follow the order of the variables, absent ones give zero rows
     variables = case["vars"]
     if variables:
         jac = d.jacobian([c14.sym(v) for v in variables])
@@ -197,6 +191,13 @@ def check_tensor(case):
         arr = c14.to_complex(lib_array(jac.eval(), expected), env)
         same(arr, expected.reshape(-1), "jacobian", "{} wrt {}".format(
             common.show(d), variables))
+    if var not in symbols:
+        require(len(g.terms) == 0, "C15:gradient-of-constant-not-empty",
+                lambda: "{}.grad({}) = {}".format(d, var, g))
+        return dict(nt=False, labels=["independent"])
+    ref = symbolic_derivative(value.array, var, env)
+    got = c14.to_complex(lib_array(g.eval(), value.array), env)
+    same(got, ref, "tensor-gradient", "{} d/d{}".format(common.show(d), var))
     occ = sum(1 for b, _ in spec["layers"] for e in c14.box_exprs(b)
               if var in c14.expr_symbols(e))
     return dict(nt=occ >= 2 or has_bubble, labels=[
@@ -210,8 +211,8 @@ def jacobian_cases(draw, tier):
     spec = draw(c14.symbolic_circuits(tier, allow_mixed=False, exprs=EXPRS,
                                       max_boxes=3, gates=["rot", "rot",
                                                           "named"]))
-    return {"d": spec, "vars": draw(st.lists(st.sampled_from(["u", "v"]),
-                                             unique=True, max_size=2)),
+    return {"d": spec, "vars": draw(st.lists(st.sampled_from(["u", "v", "x"]),
+                                             unique=True, max_size=3)),
             "mixed": draw(st.booleans()),
             "env": {s: draw(st.sampled_from(POINTS))
                     for s in ["u", "v", "x", "y", "z"]}}
@@ -255,7 +256,7 @@ def check_jacobian(case):
     same(arr, np.stack(rows).reshape(-1) if len(variables) > 1 else rows[0],
          "circuit-jacobian", "{} wrt {} (mixed={})".format(
              common.show(d), variables, mixed))
-    return dict(nt=len(variables) == 2, labels=[
+    return dict(nt=len(variables) >= 2, labels=[
         "vars%d" % len(variables), "mixed" if mixed else "pure"],
         show="jacobian {} {}".format(variables, common.show(d, 150)))
 
